@@ -130,6 +130,15 @@ def attachment_violations(pkg: dict, res: dict, nc: bool = False) -> tuple[list[
                                 viols.append({"class": "parameter-description-on-wrong-parameter", "detail": {
                                     "path": rel, "line": c["line"], "token": tok, "token_belongs_to": info, "found_under": m.group(1),
                                     "comment_line": cl[:200], "fingerprint": {"gkey": "wrong-param"}}})
+                if ok and info["kind"] == "R" and info.get("name") and not nc:
+                    # a result that the docstring names keeps that name on the line that carries its description
+                    for cl in c["text"].split("\n"):
+                        if tok in cl:
+                            m = re.search(r"@result\s+(\S+)", cl)
+                            if m and m.group(1) != info.get("name"):
+                                viols.append({"class": "result-description-on-wrong-result", "detail": {
+                                    "path": rel, "line": c["line"], "token": tok, "token_belongs_to": info, "found_under": m.group(1),
+                                    "comment_line": cl[:200], "fingerprint": {"gkey": "wrong-result"}}})
                 if not ok:
                     viols.append({"class": "docstring-on-wrong-element", "detail": {
                         "path": rel, "line": c["line"], "token": tok, "token_belongs_to": info, "found_on": d,
